@@ -18,6 +18,9 @@ func forPairs(p *Plan, shard int, f func(id int, it *Item, ea, eb *Entry)) {
 	voidE := &Entry{D: codec.Void(), NF: true}
 	for ii := range p.Items {
 		it := &p.Items[ii]
+		if it.Mode == "built" {
+			continue
+		}
 		fam := loadFamily(p.Universe, it.Family)
 		sel := make([]*Entry, 0, len(fam))
 		for k := range fam {
